@@ -158,7 +158,7 @@ def main():
         print("[%s] %-12s %-14s paths=%d (ok %d, infeasible %d, unsup %d, unwound %d, err %d) queries=%d solver=%.1fs "
               "asserts=%d wall=%.1fs" % (pid, r["name"], r["verdict"], r["paths"], r["paths_ok"], r["paths_infeasible"],
                                          r["unsupported"], r["unwound"], r["errors"], r["solver_queries"], r["solver_s"],
-                                         r["assertions_checked"], r["wall_s"]))
+                                         r["assertions_checked"] + r["assertions_trivially_true"], r["wall_s"]))
         for k, n in r["messages"].items():
             print("      %dx %s" % (n, k))
     for l in known_lines:
